@@ -49,7 +49,7 @@ func ruleVerifyWindow(c *RC) *RuleResult {
 		n := 0
 		for _, e := range c.exitsOf(h) {
 			kl := e.Killed[k.table]
-			if kl == 0 || kl&KillNil != 0 || kl&KillAny != 0 {
+			if kl == 0 || kl&KillNilAny != 0 || kl&KillAny != 0 {
 				continue // nothing stored, or removed again
 			}
 			cur := false
